@@ -239,9 +239,25 @@ def extra_checks(pid, tier, seed):
 
         pools, names, counts, closed = [], [], [], []
 
+        class EqPool(TaskPool):
+            """A user subclass with value-based equality: all its instances compare equal."""
+
+            def __eq__(self, other):
+                return isinstance(other, EqPool)
+
+            def __hash__(self):
+                return 7
+
         def new_pool():
             i = len(pools)
-            k = rng.randrange(5)
+            k = rng.randrange(6)
+            if k == 5:
+                p = EqPool(pool_size=2)
+                pools.append(p)
+                names.append(str(p))
+                counts.append(0)
+                closed.append(False)
+                return
             if k == 0:
                 p = TaskPool()
             elif k == 1:
